@@ -489,11 +489,168 @@ fn judge(rep: &mut Report, c: &Cfg, seed: u64, run: u32, o: &Outcome) {
   }
 }
 
+/// (multisender) several tasks share ONE socket (clones) and send to the same connected peer at the same time:
+/// send_multipart() from every task, and on ROUTER one task that sends its messages frame by frame (identity | MORE,
+/// then the payload frames) with small pauses inside the message - the socket must keep every accepted message whole
+/// and every task's messages in that task's order.
+async fn multisender_case(rep: &mut Report, rng: &mut Rng, router: bool, tr: Transport, tasks: usize, per_task: u32, hwm: i32) {
+  let ctx = util::new_ctx();
+  let (ta, tb) = if router { (SocketType::Router, SocketType::Dealer) } else { (SocketType::Push, SocketType::Pull) };
+  let a = ctx.socket(ta).unwrap();
+  let b = ctx.socket(tb).unwrap();
+  for s in [&a, &b] {
+    util::set_i32(s, opt::SNDHWM, hwm).await;
+    util::set_i32(s, opt::RCVHWM, hwm).await;
+  }
+  util::set_i32(&a, opt::SNDTIMEO, 5000 * util::slow_factor() as i32).await;
+  util::set_i32(&b, opt::RCVTIMEO, 500).await;
+  if router {
+    a.set_option(opt::ROUTER_MANDATORY, true).await.unwrap();
+    b.set_option_raw(opt::ROUTING_ID, b"D1").await.unwrap();
+  }
+  let ep = match util::bind_fresh(&a, tr).await {
+    Ok(e) => e,
+    Err(e) => {
+      rep.inconclusive(format!("bind {e}"));
+      return;
+    }
+  };
+  if b.connect(&ep).await.is_err() {
+    rep.inconclusive("connect failed".to_string());
+    return;
+  }
+  tokio::time::sleep(Duration::from_millis(if tr == Transport::Inproc { 80 } else { 300 })).await;
+  let run = (rng.next() & 0x7FFF_FFFF) as u32;
+  let done = Arc::new(AtomicUsize::new(0));
+  let mut hs = vec![];
+  for t in 0..tasks {
+    let a = a.clone();
+    let done = done.clone();
+    let frame_by_frame = router && t == 0;
+    let mut r2 = rng.fork(t as u64 + 1);
+    hs.push(tokio::spawn(async move {
+      let mut log: Vec<SentMsg> = vec![];
+      for seq in 0..per_task {
+        let lens: Vec<usize> = match r2.below(3) {
+          0 => vec![vh::payload::HDR + r2.range(0, 40)],
+          1 => vec![vh::payload::HDR + 5, 0, r2.range(1, 300)],
+          _ => vec![vh::payload::HDR, r2.range(0, 3000)],
+        };
+        let frames = oracles::build_message(run, t as u32 + 1, seq, u32::MAX, &lens);
+        let mut msgs: Vec<rzmq::Msg> = vec![];
+        if router {
+          msgs.push(util::msg(b"D1".to_vec(), true));
+        }
+        let nf = frames.len();
+        for (i, f) in frames.into_iter().enumerate() {
+          msgs.push(util::msg(f, i + 1 < nf));
+        }
+        let ok = if frame_by_frame {
+          let mut ok = true;
+          for m in msgs {
+            if a.send(m).await.is_err() {
+              ok = false;
+              break;
+            }
+            // stay inside the open message for a moment
+            match r2.below(3) {
+              0 => tokio::task::yield_now().await,
+              1 => tokio::time::sleep(Duration::from_micros(r2.range(50, 800) as u64)).await,
+              _ => {}
+            }
+          }
+          ok
+        } else {
+          a.send_multipart(msgs).await.is_ok()
+        };
+        log.push(SentMsg { sender: t as u32 + 1, seq, dest: u32::MAX, frame_lens: lens, status: if ok { SendStatus::Accepted } else { SendStatus::Maybe } });
+        if !ok {
+          break;
+        }
+        if r2.chance(1, 4) {
+          tokio::task::yield_now().await;
+        }
+      }
+      done.fetch_add(1, Ordering::SeqCst);
+      log
+    }));
+  }
+  // receiver
+  let mut received: Vec<Vec<Vec<u8>>> = vec![];
+  let mut idle = 0;
+  let t0 = Instant::now();
+  while idle < 4 && t0.elapsed() < util::scaled(Duration::from_secs(60)) {
+    match b.recv_multipart().await {
+      Ok(m) => {
+        idle = 0;
+        received.push(to_vecs(m));
+      }
+      Err(_) => {
+        if done.load(Ordering::SeqCst) == tasks {
+          idle += 1;
+        }
+      }
+    }
+  }
+  let mut sent: Vec<SentMsg> = vec![];
+  for h in hs {
+    if let Ok(Ok(l)) = tokio::time::timeout(Duration::from_secs(5), h).await {
+      sent.extend(l);
+    }
+  }
+  let f = oracles::check_receiver(run, &sent, &received, None, true);
+  let sock = if router { "ROUTER" } else { "PUSH" };
+  rep.case(&("multisender", router, tr, tasks, per_task, hwm), sent.len() >= 5);
+  rep.count("multisender_cases", 1);
+  rep.count("multisender_messages_accepted", sent.iter().filter(|s| s.status == SendStatus::Accepted).count() as u64);
+  if !f.ok() {
+    rep.violation(
+      format!("{}|multisender|sender={}|tr={}", f.kinds().join("+"), sock, if tr == Transport::Inproc { "inproc" } else { "stream" }),
+      format!("{} shared by {} tasks ({}) sending to one peer over {} (HWM {}): {} - received {} of {} accepted", sock, tasks, if router { "one of them frame by frame, the others with send_multipart()" } else { "all with send_multipart()" }, tr.name(), hwm, f.kinds().join("+"), received.len(), sent.iter().filter(|s| s.status == SendStatus::Accepted).count()),
+      json!({"socket": sock, "transport": tr.name(), "tasks": tasks, "per_task": per_task, "hwm": hwm, "findings": f.to_json()}),
+    );
+  }
+  let _ = tokio::time::timeout(Duration::from_secs(12), ctx.term()).await;
+}
+
+fn multisender_layer(rep: &mut Report, args: &Args, rng: &mut Rng) {
+  let rt = util::runtime(4);
+  let rt0 = util::runtime(0);
+  let mut i = 0;
+  for router in [true, false] {
+    for tr in [Transport::Tcp, Transport::Inproc, Transport::Ipc] {
+      for (tasks, hwm) in [(2usize, 1000i32), (3, 8), (2, 1)] {
+        i += 1;
+        if !args.mine(i) {
+          continue;
+        }
+        let per_task = if args.thorough() { 120 } else { 40 };
+        let r = if i % 4 == 0 { &rt0 } else { &rt };
+        util::guarded(r, multisender_case(rep, rng, router, tr, tasks, per_task, hwm));
+        for p in util::take_panics() {
+          if p.in_rzmq {
+            rep.violation(format!("panic|{}", util::panic_site(&p.location)), format!("panic at {}: {}", p.location, p.message), json!({"frames": p.backtrace_head}));
+          } else {
+            rep.inconclusive(format!("harness panic at {}: {}", p.location, p.message));
+          }
+        }
+      }
+    }
+  }
+  util::cleanup_ipc_dir();
+}
+
 fn main() {
   let args = Args::parse();
   util::install_panic_watch();
   let mut rep = Report::new("C01", &args.shard_name());
   let mut rng = Rng::new(args.seed.wrapping_mul(179424673).wrapping_add(args.shard as u64));
+  if args.only.as_deref() == Some("multisender") {
+    multisender_layer(&mut rep, &args, &mut rng);
+    rep.merge_hooks();
+    rep.emit();
+    return;
+  }
   let budget = Duration::from_secs(if args.thorough() { 900 } else { 75 });
   let t0 = Instant::now();
   let mut i = 0u64;
